@@ -38,3 +38,8 @@ Print Assumptions C05_analyzer_complete_flow.
 Theorem C05_inrange_is_representability : forall bits sg v, 0 < bits -> is_inrange bits sg v = fits bits sg v.
 Proof. exact inrange_fits. Qed.
 Print Assumptions C05_inrange_is_representability.
+
+(* completeness of the name checks (declared / upvalue / const assignment / arity): rule-abiding uses are never rejected *)
+Theorem C05_analyzer_complete_names : forall p, rule_names p = true -> off_names p = [].
+Proof. exact names_complete_thm. Qed.
+Print Assumptions C05_analyzer_complete_names.
